@@ -62,6 +62,10 @@ def model_jobs(tier):
     jobs.append(('mechanism of compiler.py, all keys interleaved, <=2 steps',
                  dict(world='plain', steps=2, emit='all',
                       inv=('TransparentUpToDevs', 'KillHarmless', 'TypeOK', 'Emit')), 'holds', 'gen-full.ndjson', 1, None))
+    # the order of the file list matters (both files define module A): [a, b] and [b, a] are different keys
+    jobs.append(('mechanism of compiler.py, file order with one module name in both files, <=2 steps',
+                 dict(world='dup', steps=2, emit='all', fl='FL4', faults=(), codecs=('uper',), adbcs=(0,),
+                      inv=('TransparentUpToDevs', 'TypeOK', 'Emit')), 'holds', 'gen-dup.ndjson', 1, None))
     if not q:
         jobs.append(('required mechanism, all keys interleaved, no faults, <=3 steps',
                      dict(world='split', devs=[], steps=3, faults=(), inv=('Transparent', 'TypeOK')), 'holds', None, 1, None))
@@ -437,8 +441,12 @@ def c17(tier, seed):
                                      for m in models]
         names = [n for n in os.listdir(run.work) if n.startswith('gen-') and n.endswith('.ndjson')]
         focus = load_histories(run, sorted(n for n in names if 'focus' in n))
-        others = load_histories(run, sorted(n for n in names if 'focus' not in n))
-        run.notes['histories_generated_by_tlc'] = len(focus) + len(others)
+        others = load_histories(run, sorted(n for n in names if 'focus' not in n and 'dup' not in n))
+        # file order: two calls whose lists hold the same files in another order (always replayed, first)
+        dup = [c for c in load_histories(run, sorted(n for n in names if 'dup' in n))
+               if len(c['hist']) == 2 and all(h['op'] == 'call' for h in c['hist'])
+               and sorted(c['hist'][0]['fl']) == sorted(c['hist'][1]['fl']) and c['hist'][0]['fl'] != c['hist'][1]['fl']]
+        run.notes['histories_generated_by_tlc'] = len(focus) + len(others) + len(dup)
         budget = (600, 600) if q else (4000, 4000)
         if os.environ.get('VERIF_C17_BUDGET'):      # development only
             budget = tuple(int(x) for x in os.environ['VERIF_C17_BUDGET'].split(','))
@@ -447,7 +455,8 @@ def c17(tier, seed):
         sweeps = [] if os.environ.get('VERIF_C17_NOSWEEP') else sweep_cases(focus, rng, tier, others)     # switch: development only
         # one order for all shards: witnesses first, then sweeps / one-key histories / interleaved-key
         # histories in turn, so that a deadline cuts all three kinds alike
-        order = witness_cases()
+        order = witness_cases() + [concretise(c, rng, tier) for c in dup[:40]]
+        run.notes['file_order_histories'] = len(dup[:40])
         qs = [sweeps, sel_f, sel_o]
         step = [max(1, len(x)) for x in qs]
         total = max(step)
